@@ -25,6 +25,7 @@ class S(vlib.Spec):
         10: "a constant, typedef or enum of the input is missing from the trimmed program",
         11: "input case is not a well-formed resolved program",
         12: "TrimAST panicked",
+        13: "input outside the domain of C16_trim_resolves_all (not resolvable / lists not by kind / base-service reference not the chosen include)",
     }
     modelled = ("tool/trimmer/trim: doTrimAST (pattern qualification, regexp compilation), markAST, preProcess, markKeptPart, "
                 "markService, traceExtendMethod, markFunction, markType, markStructLike, markTypeDef, markEnum, markInclude, "
@@ -78,7 +79,7 @@ class S(vlib.Spec):
         names = {2: "needed-definition-missing", 3: "unneeded-struct-like-kept", 4: "unneeded-include-kept",
                  5: "trimmed-program-invalid", 6: "second-trim-differs", 7: "non-matching-method-kept",
                  8: "kept-definition-changed", 10: "always-kept-definition-missing", 11: "input-not-well-formed",
-                 12: "trimast-panic"}
+                 12: "trimast-panic", 13: "input-outside-resolves-domain"}
         return "C16-%s" % names.get(code, "code-%d" % code)
 
     def extra_checks(self, ctx):
